@@ -1,4 +1,4 @@
-(* Model of the evaluator classes of artap/operators.py (lines 38-197, the repaired code: F2, F11):
+(* Model of the evaluator classes of artap/operators.py (lines 38-198, the repaired code: F2, F11, F14):
    Evaluator (base), WorstCaseEvaluator and GradientEvaluator, as used through
    Algorithm.evaluate with EvaluatorType.WORST_CASE / GRADIENT, serial path (max_processes = 1).
 
@@ -14,8 +14,17 @@
      add sub mul div abs zero one mone delta   the arithmetic (binary64 in the correspondence run);
      psum    Python's builtin sum() (CPython 3.12 sums exact floats with Neumaier compensation,
              anything else from the left; both instances are in Run/C14Run.v).
-   Job.evaluate is abstracted to "costs := f vector; costs_signed := sgn costs ++ [infeas]; state :=
-   EVALUATED" (its retry loop, constraints and data-store sync are the subject of C05/C06).
+     fails   the schedule of TRANSIENT failures of the objective (TimeoutError / RuntimeError), by
+             GLOBAL call number (= number of earlier objective calls of the run, failed ones included),
+             as the oracle tape of Model/Job.v (e_obj / e_reroll): `fails k = Some w` = call number k
+             raises and the vector Job then draws with gen_vector is w; `None` = the call returns.
+   Job.evaluate is abstracted to its retry loop over that tape: at most five attempts; a failed
+   attempt replaces the individual's vector by the re-drawn one (state EMPTY again, costs kept); the
+   successful attempt does "costs := f vector; costs_signed := sgn costs ++ [infeas vector]; state :=
+   EVALUATED" (constraints, data-store sync, the failed copies in problem.failed: C05/C06).  After
+   a fifth failure in a row the code raises RuntimeError("To many failures"): excluded here (the
+   theorems assume it does not happen, the run driver fails closed); the model leaves the individual
+   EMPTY with its last re-drawn vector.
 
    Ghost state (not in the code, observed by the harness through recording wrappers):
      s_log   the vector of every call of the objective, in call order;
@@ -34,6 +43,7 @@ Section Evaluators.
   Variable f : list T -> list T.
   Variable sgn : list T -> list T.
   Variable infeas : list T -> bool.
+  Variable fails : nat -> option (list T).   (* transient failures by global call number, with the re-drawn vector *)
 
   (* an entry of costs_signed: numbers followed by the feasibility flag *)
   Inductive sval := SV (t : T) | SB (b : bool).
@@ -47,28 +57,34 @@ Section Evaluators.
     d_parents : list nat;
     d_children : list nat;
     d_sens : option T;                 (* features['sensitivity'] *)
-    d_grad : option (list T) }.        (* features['gradient'] *)
+    d_grad : option (list T);          (* features['gradient'] *)
+    d_fail : nat }.                    (* ghost: failed attempts of Job.evaluate on this individual *)
 
   (* Individual(vector) *)
   Definition fresh (v : list T) : design :=
     {| d_vec := v; d_costs := []; d_signed := []; d_state := EMPTY; d_parents := []; d_children := [];
-       d_sens := None; d_grad := None |}.
+       d_sens := None; d_grad := None; d_fail := 0 |}.
 
   Definition set_children (d : design) (cs : list nat) : design :=
     {| d_vec := d_vec d; d_costs := d_costs d; d_signed := d_signed d; d_state := d_state d;
-       d_parents := d_parents d; d_children := cs; d_sens := d_sens d; d_grad := d_grad d |}.
+       d_parents := d_parents d; d_children := cs; d_sens := d_sens d; d_grad := d_grad d; d_fail := d_fail d |}.
   Definition set_parents (d : design) (ps : list nat) : design :=
     {| d_vec := d_vec d; d_costs := d_costs d; d_signed := d_signed d; d_state := d_state d;
-       d_parents := ps; d_children := d_children d; d_sens := d_sens d; d_grad := d_grad d |}.
+       d_parents := ps; d_children := d_children d; d_sens := d_sens d; d_grad := d_grad d; d_fail := d_fail d |}.
+  (* individual.vector = VectorAndNumbers.gen_vector(parameters) after a failed attempt *)
+  Definition set_retry (d : design) (v : list T) : design :=
+    {| d_vec := v; d_costs := d_costs d; d_signed := d_signed d; d_state := d_state d;
+       d_parents := d_parents d; d_children := d_children d; d_sens := d_sens d; d_grad := d_grad d;
+       d_fail := S (d_fail d) |}.
   Definition set_eval (d : design) (c : list T) (sc : list sval) : design :=
     {| d_vec := d_vec d; d_costs := c; d_signed := sc; d_state := EVALUATED;
-       d_parents := d_parents d; d_children := d_children d; d_sens := d_sens d; d_grad := d_grad d |}.
+       d_parents := d_parents d; d_children := d_children d; d_sens := d_sens d; d_grad := d_grad d; d_fail := d_fail d |}.
   Definition set_sens (d : design) (c : list T) (sc : list sval) (x : T) : design :=
     {| d_vec := d_vec d; d_costs := c; d_signed := sc; d_state := d_state d;
-       d_parents := d_parents d; d_children := d_children d; d_sens := Some x; d_grad := d_grad d |}.
+       d_parents := d_parents d; d_children := d_children d; d_sens := Some x; d_grad := d_grad d; d_fail := d_fail d |}.
   Definition set_grad (d : design) (g : list T) : design :=
     {| d_vec := d_vec d; d_costs := d_costs d; d_signed := d_signed d; d_state := d_state d;
-       d_parents := d_parents d; d_children := d_children d; d_sens := d_sens d; d_grad := Some g |}.
+       d_parents := d_parents d; d_children := d_children d; d_sens := d_sens d; d_grad := Some g; d_fail := d_fail d |}.
 
   (* the heap of Individual objects *)
   Record heap := { h_next : nat; h_get : nat -> design }.
@@ -119,12 +135,22 @@ Section Evaluators.
   Definition c0 (c : list T) : T := nth 0 c zero.
 
   (* ---- Evaluator (base class) ---- *)
-  (* Job.evaluate on one individual, with the call recorded in the ghost log *)
-  Definition job (hl : heap * list (list T)) (id : nat) : heap * list (list T) :=
-    let '(h, log) := hl in
-    let d := h_get h id in
-    let c := f (d_vec d) in
-    (hupd h id (set_eval d c (map SV (sgn c) ++ [SB (infeas (d_vec d))])), log ++ [d_vec d]).
+  (* Job.evaluate on one individual: `for i in range(5)`, every call (failed or not) recorded in the
+     ghost log; the global call number of an attempt is the length of the log before it *)
+  Fixpoint job_att (fuel : nat) (hl : heap * list (list T)) (id : nat) : heap * list (list T) :=
+    match fuel with
+    | 0 => hl                          (* the code raises RuntimeError here (excluded, see the header) *)
+    | S fuel' =>
+        let '(h, log) := hl in
+        let d := h_get h id in
+        match fails (length log) with
+        | None =>
+            let c := f (d_vec d) in
+            (hupd h id (set_eval d c (map SV (sgn c) ++ [SB (infeas (d_vec d))])), log ++ [d_vec d])
+        | Some w => job_att fuel' (hupd h id (set_retry d w), log ++ [d_vec d]) id
+        end
+    end.
+  Definition job (hl : heap * list (list T)) (id : nat) : heap * list (list T) := job_att 5 hl id.
 
   (* Evaluator.evaluate_serial: only individuals in state EMPTY are handed to the job *)
   Fixpoint eval_serial (hl : heap * list (list T)) (ids : list nat) : heap * list (list T) :=
@@ -218,7 +244,12 @@ Section Evaluators.
         Some {| s_heap := h2; s_inds := []; s_todo := []; s_log := log1; s_proc := s_proc s ++ [s_inds s] |}
     end.
 
-  Definition g_evaluate (s : st) (ids : list nat) : option st := g_run (fold_left g_add ids s).
+  (* GradientEvaluator.evaluate(individuals), the F14 repair: the designs are evaluated (and, after a
+     transient failure, re-drawn) BEFORE their displaced neighbours are built, as in the worst case *)
+  Definition g_evaluate (s : st) (ids : list nat) : option st :=
+    let '(h1, log1) := eval_serial (s_heap s, s_log s) ids in          (* super().evaluate(individuals) *)
+    let s1 := {| s_heap := h1; s_inds := s_inds s; s_todo := s_todo s; s_log := log1; s_proc := s_proc s |} in
+    g_run (fold_left g_add ids s1).
 
   (* ---- a run: the algorithm creates the designs of a generation, then calls evaluate on them ---- *)
   Fixpoint new_designs (h : heap) (vs : list (list T)) : heap * list nat :=
